@@ -246,6 +246,8 @@ pub fn gen_c03(rng: &mut Rng, n: usize, out: &mut Vec<String>) {
                 let bhi = offs[chi - 1] + toks[chi - 1].text.len();
                 out.push(format!("JUDGEFAULT {} {} {} {}", hex_str(&t), kind, blo, bhi));
                 out.push(format!("NEW {}", hex_str(&t)));
+                // what the broker publishes for it: the same diagnostics as LSP ranges (inside the document)
+                out.push(format!("PUB {}", hex_str(&t)));
             }
         }
     }
